@@ -553,6 +553,34 @@ B('C17', 'key-list-reordered', RI,
 B('C17', 'same-affine-map', 'dassh/utils.py',
   "    return length * 2.54 / 100.0", "    return length * 0.0254")
 
+M('C17', 'mfr-getters-unguarded', RI,
+  "    if m_unit not in utils._DEFAULT_UNITS['mass']:\n"
+  "        m_conv = utils.get_mass_conversion(m_unit, 'kg')\n",
+  "    m_conv = utils.get_mass_conversion(m_unit, 'kg')\n", 'C17.R8')
+M('C17', 'table-getter-unguarded', TB,
+  "        if unit not in utils._DEFAULT_UNITS['length']:\n"
+  "            return utils.get_length_conversion('m', unit)\n"
+  "        else:\n            return _echo_value\n",
+  "        return utils.get_length_conversion('m', unit)\n", 'C17.R8')
+M('C17', 'byposition-shallow-dict', RI,
+  "                dat['ByPosition'][asm] = copy.deepcopy(\n"
+  "                    [l[0], (ring, pos, asm), l[4]])\n",
+  "                bc = l[4]\n"
+  "                dat['ByPosition'][asm] = [l[0], (ring, pos, asm), bc]\n",
+  'C17.R7')
+B('C17', 'byposition-dict-copy', RI,
+  "                dat['ByPosition'][asm] = copy.deepcopy(\n"
+  "                    [l[0], (ring, pos, asm), l[4]])\n",
+  "                dat['ByPosition'][asm] = [l[0], (ring, pos, asm),\n"
+  "                                          dict(l[4])]\n")
+B('C17', 'getter-guard-inverted-form', TB,
+  "        if unit not in utils._DEFAULT_UNITS['temperature']:\n"
+  "            return utils.get_temperature_conversion('K', unit)\n"
+  "        else:\n            return _echo_value\n",
+  "        if unit in utils._DEFAULT_UNITS['temperature']:\n"
+  "            return _echo_value\n"
+  "        return utils.get_temperature_conversion('K', unit)\n")
+
 # ---------------------------------------------------------------- C18
 M('C18', 'log-exit-removed', 'dassh/logged_class.py',
   "            if log_level in [\"error\", \"critical\"]:\n"
